@@ -12,13 +12,11 @@
   * `hash_match_intact`         hash matches ⇒ not redacted, JSON = canonical form of the stripped input
   * `hash_mismatch_redacted`    hash does not match ⇒ flagged redacted, JSON = canonical form of the
                                 redaction of the stripped input (so only kept keys, `redact_exact`)
-  * `tamper_redactable_same_identity`  two received events whose redacted forms agree (up to the
-                                `event_id` member the keep struct re-emits for a case variant such as
-                                `Event_id`) get the same event ID and the same signature verdicts —
-                                provided an event that passed the hash check carries no such variant
-                                (needed: kernel-evaluated counter-example at the end of the file)
-  * `same_redaction_same_identity_intact`  … and so do two events that both passed the hash check
-  * `tamper_redactable_same_identity_partial`  the earlier form (no `event_id` in the redaction), a corollary
+  * `tamper_redactable_same_identity`  two received events whose redacted forms agree get the same event ID
+                                and the same signature verdicts — no side condition (redaction matches keys
+                                exactly, so a case variant such as `Event_id` is dropped, not re-emitted)
+  * `identity_of_accepted`      the redaction and the ID of an accepted event are those of the stripped input
+  * `same_redaction_same_identity_intact`  the instance "both passed the hash check"
 -/
 import VProofs.EventParse
 import VProofs.EventTamper
@@ -289,8 +287,8 @@ theorem hash_match_intact {H : Bytes → Bytes} {ver text : Bytes} {e : PDU} (h 
 
 /-- **Hash mismatch ⇒ redacted form only.**  If the hash does not match, the event is flagged
     redacted and its `JSON()` is the canonical encoding of the room version's redaction of the
-    stripped input (with `event_id` dropped in the later formats): by `C05.redact_exact` no top-level
-    key and no content key outside the keep-lists is in it, and by `accessors_only_see_json` no
+    stripped input (`dropEventID fmt r0 = r0`: `dropEventID_noop` below): by `C05.redact_exact` /
+    `C05.redact_drops_unlisted` no top-level key and no content key outside the keep-lists is in it, and by `accessors_only_see_json` no
     accessor reports anything that is not in that JSON. -/
 theorem hash_mismatch_redacted {H : Bytes → Bytes} {ver text : Bytes} {e : PDU} (h : parseUntrusted H ver text = .ok e)
     {row : VGen.VersionRow} {fmt : Fmt} {p : PVal} {kvs : EventParse.Obj}
@@ -350,134 +348,112 @@ theorem redaction_of_accepted {H : Bytes → Bytes} {ver text : Bytes} {e : PDU}
     rw [this]
     exact C05.redact_idem hr
 
-/-! ### the `event_id` re-emitted by the keep struct -/
+/-! ### no `event_id` in the redaction of a received event -/
 
-/-- the keep struct's `event_id` field of a registered version: present, and a raw pass-through -/
-theorem event_id_field {ver : Bytes} {a : Algo} (ha : algoOf ver = some a)
-    (hev : a.fields.any (fun f => f.name == b!"event_id") = true) :
-    tablesOk a = true ∧ ∃ g ∈ a.fields, g.name = b!"event_id" ∧ g.kind = .raw := by
-  obtain ⟨hT, hS⟩ := C05.algoOf_ok ha
-  obtain ⟨g, hg, hgn⟩ := List.any_eq_true.mp hev
-  have hgn' : g.name = b!"event_id" := by simpa using hgn
-  refine ⟨hT, g, hg, hgn', ?_⟩
-  have hall : a.fields.all (fun f => f.kind == .raw || f.name == b!"type" || f.name == b!"content") = true := by
-    simp only [C05.shapeOk, Bool.and_eq_true] at hS; exact hS.1.2
-  have := List.all_eq_true.mp hall g hg
-  rw [hgn'] at this
-  simpa using this
+/-- the text of an accepted event has no duplicate keys (the model's domain) -/
+theorem parseUntrusted_nodup {H : Bytes → Bytes} {ver text : Bytes} {e : PDU} (h : parseUntrusted H ver text = .ok e)
+    {p : PVal} (hp : parse text = some p) : p.toJVal.noDupKeys = true := by
+  obtain ⟨_, _, p', _, R, _⟩ := parseUntrusted_ok h
+  have : p' = p := by have := R.hparse; rw [hp] at this; exact (Option.some.inj this).symm
+  subst this
+  exact R.noDup
 
-theorem deleteKeys_sub (ks : List Bytes) (kvs : EventParse.Obj) : ∀ kv ∈ deleteKeys ks kvs, kv ∈ kvs := by
-  unfold deleteKeys
-  induction ks generalizing kvs with
-  | nil => intro kv h; exact h
-  | cons k rest ih =>
-    intro kv h
-    simp only [List.foldl_cons] at h
-    exact deleteFirst_sub k kvs kv (ih _ kv h)
+/-- For the formats with a computed ID, the redaction of the stripped form of an accepted event has no
+    `event_id` member: the exact key was deleted on receipt and redaction matches keys exactly — a case
+    variant such as `Event_id` is not re-emitted (it was, before the repair of `redactEventJSON`). -/
+theorem redaction_no_event_id {H : Bytes → Bytes} {ver text : Bytes} {e : PDU} (h : parseUntrusted H ver text = .ok e)
+    {fmt : Fmt} (hv : fmt ≠ .v1) {p : PVal} {kvs : EventParse.Obj}
+    (hp : parse text = some p) (hs : stripped fmt p.toJVal = .obj kvs)
+    {rk : EventParse.Obj} (hr : redactJSON ver (.obj kvs) = .ok (.obj rk)) : lookupExact rk b!"event_id" = none := by
+  have hnd := parseUntrusted_nodup h hp
+  have hno : lookupExact kvs b!"event_id" = none := by
+    cases hj : p.toJVal with
+    | obj kvs0 => rw [hj] at hs hnd; exact stripped_no_event_id hv hnd hs
+    | null => rw [hj] at hs; cases hs
+    | bool b => rw [hj] at hs; cases hs
+    | num n => rw [hj] at hs; cases hs
+    | str x => rw [hj] at hs; cases hs
+    | arr xs => rw [hj] at hs; cases hs
+  exact C05.redact_drops_unlisted hr (by decide) (by decide) hno
 
-/-- the members left after the receiver's stripping carry grammatical number literals -/
-theorem stripped_numsOk {fmt : Fmt} {text : Bytes} {p : PVal} {kvs : EventParse.Obj} (hp : parse text = some p)
-    (hs : stripped fmt p.toJVal = .obj kvs) : numsOkMembers kvs = true := by
-  have hn := parse_numsOk hp
-  unfold stripped at hs
-  split at hs
-  · rename_i kvs0 hj
-    rw [hj] at hn
-    simp only [JVal.numsOk] at hn
-    have hk : kvs = deleteKeys (stripKeys fmt) kvs0 := by injection hs with h; exact h.symm
-    rw [allNums_iff, hk]
-    intro kv hkv
-    exact (allNums_iff kvs0).mp hn kv (deleteKeys_sub _ _ kv hkv)
-  · rename_i hno
-    exact absurd hs (hno _)
+/-- The later formats delete `event_id` from the redacted JSON (`dropEventID`; eventV2.go keeps that statement):
+    on the redaction of a received event it removes nothing, so in `hash_mismatch_redacted` the returned JSON is
+    the canonical encoding of the redaction itself. -/
+theorem dropEventID_noop {H : Bytes → Bytes} {ver text : Bytes} {e : PDU} (h : parseUntrusted H ver text = .ok e)
+    {fmt : Fmt} {p : PVal} {kvs : EventParse.Obj} (hp : parse text = some p) (hs : stripped fmt p.toJVal = .obj kvs)
+    {r0 : JVal} (hred : redactJSON ver (.obj kvs) = .ok r0) : dropEventID fmt r0 = r0 := by
+  unfold dropEventID
+  split
+  · rfl
+  · rename_i hv
+    have hv' : fmt ≠ .v1 := by simpa using hv
+    obtain ⟨_, _, rk, _, _, hr0⟩ := redactJSON_obj hred
+    subst hr0
+    simp only [deleteFirst_absent _ _ (redaction_no_event_id h hv' hp hs hred)]
+
+/-- An event received through `NewEventFromUntrustedJSON` in a format with a computed ID holds no
+    `event_id` member: the key is deleted on receipt, and a redacted event is (re-parsed from) a redaction,
+    which has none (`redaction_no_event_id`). -/
+theorem accepted_no_event_id {H : Bytes → Bytes} {ver text : Bytes} {e : PDU} (h : parseUntrusted H ver text = .ok e)
+    (hv : e.fmt ≠ .v1) : lookupExact e.obj b!"event_id" = none := by
+  obtain ⟨row, fmt, p, kvs, hrow, hfmt, hp, hs, hA, hef, hcase⟩ := parseUntrusted_cases h
+  rw [hef] at hv
+  have hnd := parseUntrusted_nodup h hp
+  have hno : lookupExact kvs b!"event_id" = none := by
+    cases hj : p.toJVal with
+    | obj kvs0 => rw [hj] at hs hnd; exact stripped_no_event_id hv hnd hs
+    | null => rw [hj] at hs; cases hs
+    | bool b => rw [hj] at hs; cases hs
+    | num n => rw [hj] at hs; cases hs
+    | str x => rw [hj] at hs; cases hs
+    | arr xs => rw [hj] at hs; cases hs
+  rcases hcase with ⟨_, _, ho, _⟩ | ⟨_, _, r0, hred, _, ho | hdrop⟩
+  · rw [ho]; exact hno
+  · rw [ho]; exact hno
+  · obtain ⟨_, _, rk, _, _, hr0⟩ := redactJSON_obj hred
+    subst hr0
+    have hn := redaction_no_event_id h hv hp hs hred
+    unfold dropEventID at hdrop
+    rw [if_neg (by simp [hv])] at hdrop
+    simp only [deleteFirst_absent _ _ hn] at hdrop
+    have : e.obj = rk := by injection hdrop with h1; exact h1.symm
+    rw [this]; exact hn
 
 /-- What the identity of an accepted event (formats with a computed ID) is computed from: the
-    redaction of the stripped input with the re-emitted `event_id` dropped — provided an event that is
-    returned *not redacted* carries no case variant of `event_id` (`hclean`).  A redacted event never
-    keeps one: it is either re-parsed from its redaction without `event_id`, or its redaction changed
-    nothing, and then there was no variant (`no_variant_of_same_canon`). -/
+    redaction of the stripped input.  No side condition: whether the event passed the hash check or
+    was redacted, and whatever case variants of `event_id` it carries, its redaction is that of the
+    stripped input and its ID is the reference hash of that redaction. -/
 theorem identity_of_accepted {H : Bytes → Bytes} {ver text : Bytes} {e : PDU} (h : parseUntrusted H ver text = .ok e)
     {row : VGen.VersionRow} {fmt : Fmt} {p : PVal} {kvs : EventParse.Obj}
     (hrow : rowOf ver = some row) (hfmt : fmtOfName row.newEventFromUntrustedJSONFunc = some fmt) (hv : fmt ≠ .v1)
     (hp : parse text = some p) (hs : stripped fmt p.toJVal = .obj kvs)
-    {rk : EventParse.Obj} (hr : redactJSON ver (.obj kvs) = .ok (.obj rk))
-    (hclean : e.redacted = false → lookupExact rk b!"event_id" = none) :
-    redactJSON ver (.obj e.obj) = .ok (.obj (deleteFirst b!"event_id" rk)) ∧
+    {rk : EventParse.Obj} (hr : redactJSON ver (.obj kvs) = .ok (.obj rk)) :
+    redactJSON ver (.obj e.obj) = .ok (.obj rk) ∧
     referenceID H row ver (.obj e.obj) = .ok e.f.eventIDRaw := by
-  obtain ⟨row', fmt', p', kvs', hrow', hfmt', hp', hs', hA, hef, hcase⟩ := parseUntrusted_cases h
-  have e1 : row' = row := by rw [hrow] at hrow'; exact (Option.some.inj hrow').symm
-  subst e1
-  have e2 : fmt' = fmt := by rw [hfmt] at hfmt'; exact (Option.some.inj hfmt').symm
-  subst e2
-  have e3 : p' = p := by rw [hp] at hp'; exact (Option.some.inj hp').symm
-  subst e3
-  have e4 : kvs' = kvs := by rw [hs] at hs'; injection hs' with h1; exact h1.symm
-  subst e4
-  have hidr : referenceID H row' ver (.obj e.obj) = .ok e.f.eventIDRaw := by
-    obtain ⟨row2, hrow2, hid⟩ := hA.hid (by rw [hef]; exact hv)
-    have : row2 = row' := by rw [hrow] at hrow2; exact (Option.some.inj hrow2).symm
-    subst this
-    exact hid
-  refine ⟨?_, hidr⟩
-  obtain ⟨_, a, ha, hev⟩ := row_facts hrow
-  obtain ⟨hT, g, hg, hgn, hgk⟩ := event_id_field ha hev
-  have hro : redactObj a kvs' = .ok (.obj rk) := by simpa [redactJSON, ha, redactWith] using hr
-  have hdrop : ∀ r, dropEventID fmt' (.obj r) = .obj (deleteFirst b!"event_id" r) := by
-    intro r; unfold dropEventID
-    rw [if_neg (by simp [hv])]
-  -- an event that keeps its received members has no variant of `event_id`
-  have hkeep : lookupExact rk b!"event_id" = none → redactJSON ver (.obj kvs') = .ok (.obj (deleteFirst b!"event_id" rk)) := by
-    intro hn; rw [deleteFirst_absent _ _ hn]; exact hr
-  rcases hcase with ⟨_, hred, ho, _⟩ | ⟨_, _, r0, hredj, hj, ho | hdropped⟩
-  · rw [ho]; exact hkeep (hclean hred)
-  · have hr0 : r0 = .obj rk := by rw [hr] at hredj; injection hredj with h1; exact h1.symm
-    subst hr0
-    rw [ho]
-    apply hkeep
-    apply no_variant_of_same_canon hT hg hgn hgk (stripped_numsOk hp hs) hro
-    rw [← hdrop, ← hj, hA.hjson, ho]
-  · have hr0 : r0 = .obj rk := by rw [hr] at hredj; injection hredj with h1; exact h1.symm
-    subst hr0
-    rw [hdrop] at hdropped
-    have ho : e.obj = deleteFirst b!"event_id" rk := by injection hdropped with h1; exact h1.symm
-    -- the reference of the re-parsed event was computed, so its redaction succeeded
-    rw [ho] at hidr ⊢
-    unfold referenceID at hidr
-    split at hidr
-    · cases hidr
-    · rename_i r hrr
-      have hrr' : redactObj a (deleteFirst b!"event_id" rk) = .ok (.obj r) := by
-        simpa [redactJSON, ha, redactWith] using hrr
-      rw [hrr, redactObj_dropEventID hT hg hgn hgk hro hrr']
-    · cases hidr
+  obtain ⟨h1, hef, h3⟩ := redaction_of_accepted h hrow hfmt hp hs hr (redaction_no_event_id h hv hp hs hr)
+  exact ⟨h1, h3 (by rw [hef]; exact hv)⟩
 
 /-- **Tampering with redactable material keeps the identity.**  Two received events (same room
-    version, event-ID format 2 or 3) whose stripped forms have the same redaction — up to the
-    `event_id` member that the keep struct re-emits for a case variant such as `Event_id`
-    (`hsame`) — get the same event ID, and every signature check gives the same verdict on both,
-    whichever of them passed the content-hash check.
+    version, event-ID format 2 or 3) whose stripped forms have the same redaction get the same event
+    ID, and every signature check gives the same verdict on both — whichever of them passed the
+    content-hash check, and whatever else they carry (extra top-level keys, case variants of protected
+    keys such as `Event_id`, other content).
 
-    Side condition (`hc1`, `hc2`): an event that is returned *not redacted* (its content hash matched)
-    carries no case variant of `event_id`.  It holds of every event `EventBuilder.Build` produces and of
-    every copy of such an event whose hashed part is untouched, i.e. of the "original" and of every
-    hash-preserving tampering the property quantifies over; a tampered copy that *adds* `Event_id`
-    fails the hash check, is redacted, and is covered (its variant is dropped: commit c0dfbd8).
-    The condition cannot be removed: see `tamper_identity_variant_counterexample` below. -/
+    No side condition any more.  Before the repair of `redactEventJSON` (keys matched to the keep struct
+    case-insensitively) this needed "an event that passed the hash check carries no case variant of
+    `event_id`", and was FALSE without it (a sender-made `{"Event_id":"$x", valid hash}` and its
+    content-tampered copy: same redaction, different IDs — the pair below, now with equal IDs). -/
 theorem tamper_redactable_same_identity {H : Bytes → Bytes} {ver t1 t2 : Bytes} {e1 e2 : PDU}
     (h1 : parseUntrusted H ver t1 = .ok e1) (h2 : parseUntrusted H ver t2 = .ok e2)
     {row : VGen.VersionRow} {fmt : Fmt} {p1 p2 : PVal} {k1 k2 : EventParse.Obj}
     (hrow : rowOf ver = some row) (hfmt : fmtOfName row.newEventFromUntrustedJSONFunc = some fmt) (hv : fmt ≠ .v1)
     (hp1 : parse t1 = some p1) (hp2 : parse t2 = some p2)
     (hs1 : stripped fmt p1.toJVal = .obj k1) (hs2 : stripped fmt p2.toJVal = .obj k2)
-    {rk1 rk2 : EventParse.Obj} (hr1 : redactJSON ver (.obj k1) = .ok (.obj rk1)) (hr2 : redactJSON ver (.obj k2) = .ok (.obj rk2))
-    (hsame : deleteFirst b!"event_id" rk1 = deleteFirst b!"event_id" rk2)
-    (hc1 : e1.redacted = false → lookupExact rk1 b!"event_id" = none)
-    (hc2 : e2.redacted = false → lookupExact rk2 b!"event_id" = none) :
+    {rk : EventParse.Obj} (hr1 : redactJSON ver (.obj k1) = .ok (.obj rk)) (hr2 : redactJSON ver (.obj k2) = .ok (.obj rk)) :
     e1.f.eventIDRaw = e2.f.eventIDRaw ∧
     ∀ verify name kid pk, C05.sigValid verify ver (.obj e1.obj) name kid pk = C05.sigValid verify ver (.obj e2.obj) name kid pk := by
-  obtain ⟨ha1, hi1⟩ := identity_of_accepted h1 hrow hfmt hv hp1 hs1 hr1 hc1
-  obtain ⟨ha2, hi2⟩ := identity_of_accepted h2 hrow hfmt hv hp2 hs2 hr2 hc2
-  rw [hsame] at ha1
+  obtain ⟨ha1, hi1⟩ := identity_of_accepted h1 hrow hfmt hv hp1 hs1 hr1
+  obtain ⟨ha2, hi2⟩ := identity_of_accepted h2 hrow hfmt hv hp2 hs2 hr2
   constructor
   · simp only [referenceID, ha1] at hi1
     simp only [referenceID, ha2] at hi2
@@ -486,9 +462,8 @@ theorem tamper_redactable_same_identity {H : Bytes → Bytes} {ver t1 t2 : Bytes
   · intro verify name kid pk
     simp only [C05.sigValid, signingPayload, referenceBytes, signaturesOf, ha1, ha2]
 
-/-- The case the side condition of `tamper_redactable_same_identity` leaves out and in which the
-    conclusion still holds: two events that both passed the hash check and have the same redaction
-    (whatever it contains) have the same ID and signature verdicts. -/
+/-- The instance "both passed the hash check" (kept under its name; before the repair it was the one
+    case provable without the side condition). -/
 theorem same_redaction_same_identity_intact {H : Bytes → Bytes} {ver t1 t2 : Bytes} {e1 e2 : PDU}
     (h1 : parseUntrusted H ver t1 = .ok e1) (h2 : parseUntrusted H ver t2 = .ok e2)
     {row : VGen.VersionRow} {fmt : Fmt} {p1 p2 : PVal} {k1 k2 : EventParse.Obj}
@@ -496,54 +471,10 @@ theorem same_redaction_same_identity_intact {H : Bytes → Bytes} {ver t1 t2 : B
     (hp1 : parse t1 = some p1) (hp2 : parse t2 = some p2)
     (hs1 : stripped fmt p1.toJVal = .obj k1) (hs2 : stripped fmt p2.toJVal = .obj k2)
     {rk : EventParse.Obj} (hr1 : redactJSON ver (.obj k1) = .ok (.obj rk)) (hr2 : redactJSON ver (.obj k2) = .ok (.obj rk))
-    (hi1 : e1.redacted = false) (hi2 : e2.redacted = false) :
-    e1.f.eventIDRaw = e2.f.eventIDRaw ∧
-    ∀ verify name kid pk, C05.sigValid verify ver (.obj e1.obj) name kid pk = C05.sigValid verify ver (.obj e2.obj) name kid pk := by
-  have key : ∀ {t : Bytes} {e : PDU} {p : PVal} {k : EventParse.Obj}, parseUntrusted H ver t = .ok e → parse t = some p →
-      stripped fmt p.toJVal = .obj k → redactJSON ver (.obj k) = .ok (.obj rk) → e.redacted = false →
-      redactJSON ver (.obj e.obj) = .ok (.obj rk) ∧ referenceID H row ver (.obj e.obj) = .ok e.f.eventIDRaw := by
-    intro t e p k h hp hs hr hi
-    obtain ⟨row', fmt', p', kvs', hrow', hfmt', hp', hs', hA, hef, hcase⟩ := parseUntrusted_cases h
-    have e1 : row' = row := by rw [hrow] at hrow'; exact (Option.some.inj hrow').symm
-    subst e1
-    have e2 : fmt' = fmt := by rw [hfmt] at hfmt'; exact (Option.some.inj hfmt').symm
-    subst e2
-    have e3 : p' = p := by rw [hp] at hp'; exact (Option.some.inj hp').symm
-    subst e3
-    have e4 : kvs' = k := by rw [hs] at hs'; injection hs' with h1; exact h1.symm
-    subst e4
-    have hidr : referenceID H row' ver (.obj e.obj) = .ok e.f.eventIDRaw := by
-      obtain ⟨row2, hrow2, hid⟩ := hA.hid (by rw [hef]; exact hv)
-      have : row2 = row' := by rw [hrow] at hrow2; exact (Option.some.inj hrow2).symm
-      subst this
-      exact hid
-    rcases hcase with ⟨_, _, ho, _⟩ | ⟨_, hred, _⟩
-    · rw [ho]; exact ⟨hr, by rw [← ho]; exact hidr⟩
-    · rw [hi] at hred; cases hred
-  obtain ⟨ha1, hd1⟩ := key h1 hp1 hs1 hr1 hi1
-  obtain ⟨ha2, hd2⟩ := key h2 hp2 hs2 hr2 hi2
-  constructor
-  · simp only [referenceID, ha1] at hd1
-    simp only [referenceID, ha2] at hd2
-    rw [hd1] at hd2
-    injection hd2
-  · intro verify name kid pk
-    simp only [C05.sigValid, signingPayload, referenceBytes, signaturesOf, ha1, ha2]
-
-/-- The earlier, weaker form (kept under its name): the same redaction on both sides and no `event_id`
-    member in it, i.e. neither event carries a case variant of `event_id`.  A corollary of
-    `tamper_redactable_same_identity`. -/
-theorem tamper_redactable_same_identity_partial {H : Bytes → Bytes} {ver t1 t2 : Bytes} {e1 e2 : PDU}
-    (h1 : parseUntrusted H ver t1 = .ok e1) (h2 : parseUntrusted H ver t2 = .ok e2)
-    {row : VGen.VersionRow} {fmt : Fmt} {p1 p2 : PVal} {k1 k2 : EventParse.Obj}
-    (hrow : rowOf ver = some row) (hfmt : fmtOfName row.newEventFromUntrustedJSONFunc = some fmt) (hv : fmt ≠ .v1)
-    (hp1 : parse t1 = some p1) (hp2 : parse t2 = some p2)
-    (hs1 : stripped fmt p1.toJVal = .obj k1) (hs2 : stripped fmt p2.toJVal = .obj k2)
-    {rk : EventParse.Obj} (hr1 : redactJSON ver (.obj k1) = .ok (.obj rk)) (hr2 : redactJSON ver (.obj k2) = .ok (.obj rk))
-    (hnoid : lookupExact rk b!"event_id" = none) :
+    (_hi1 : e1.redacted = false) (_hi2 : e2.redacted = false) :
     e1.f.eventIDRaw = e2.f.eventIDRaw ∧
     ∀ verify name kid pk, C05.sigValid verify ver (.obj e1.obj) name kid pk = C05.sigValid verify ver (.obj e2.obj) name kid pk :=
-  tamper_redactable_same_identity h1 h2 hrow hfmt hv hp1 hp2 hs1 hs2 hr1 hr2 rfl (fun _ => hnoid) (fun _ => hnoid)
+  tamper_redactable_same_identity h1 h2 hrow hfmt hv hp1 hp2 hs1 hs2 hr1 hr2
 
 /-! ## Non-vacuity: concrete received events (room version 10, toy hash `H0 _ = []`) -/
 
@@ -564,7 +495,7 @@ example : (match parseUntrusted H0 b!"10" (exText "QUJD") with
   | .ok e => e.redacted && e.f.type == b!"m.x" && (e.f.content.map encodeCanon == some b!"{}")
   | _ => false) = true := by decide +kernel
 
-/-! ## `tamper_redactable_same_identity`: an instance, and why its side condition is needed
+/-! ## `tamper_redactable_same_identity`: instances with a case variant of `event_id`
 
 Toy hash `H1 b = [length of b mod 256]` (enough to tell the reference bytes apart).  Room version 10. -/
 
@@ -577,41 +508,39 @@ def exEv (variant : Bool) (body h : String) : Bytes :=
    "\"},\"origin_server_ts\":1,\"prev_events\":[],\"room_id\":\"!r:h\",\"sender\":\"@a:h\",\"type\":\"m.x\"}"
   ).toList.flatMap (fun c => utf8Encode c.toNat)
 
-/-- canonical bytes of the redaction of the stripped form of a text (room version 10): as it is, and with `event_id` dropped -/
-def exRedaction (t : Bytes) : Option (Bytes × Bytes) :=
+/-- canonical bytes of the redaction of the stripped form of a text (room version 10) -/
+def exRedaction (t : Bytes) : Option Bytes :=
   match parse t with
   | some p =>
     match redactJSON b!"10" (stripped .v2 p.toJVal) with
-    | .ok (.obj rk) => some (encodeCanon (.obj rk), encodeCanon (.obj (deleteFirst b!"event_id" rk)))
+    | .ok (.obj rk) => some (encodeCanon (.obj rk))
     | _ => none
   | none => none
 
-/-- The hypotheses of `tamper_redactable_same_identity` with DIFFERENT redactions on the two sides (the case the
-    `_partial` form did not cover): a genuine event (hash matches, no variant) and a copy to which `Event_id` was
-    added.  The copy fails the hash check, its redaction carries the re-emitted `event_id`, the two redactions
-    agree once it is dropped — and both get the same event ID, as the theorem says. -/
+/-- A genuine event (hash matches, no variant) and a copy to which `Event_id` was added.  The copy fails the
+    hash check and is redacted; the variant is dropped by the redaction like any unlisted key, the two redactions
+    are equal — and both get the same event ID, as the theorem says. -/
 example : (match parseUntrusted H1 b!"10" (exEv false "x" "hw"), parseUntrusted H1 b!"10" (exEv true "x" "hw") with
   | .ok e, .ok t => !e.redacted && t.redacted && e.f.eventIDRaw == t.f.eventIDRaw && !e.f.eventIDRaw.isEmpty
   | _, _ => false) = true := by decide +kernel
 
 example : (match exRedaction (exEv false "x" "hw"), exRedaction (exEv true "x" "hw") with
-  | some (r1, d1), some (r2, d2) => r1 != r2 && d1 == d2
+  | some r1, some r2 => r1 == r2
   | _, _ => false) = true := by decide +kernel
 
-/-- **Why the side condition is needed** (`tamper_identity_variant_counterexample`).  An event whose SENDER put
-    a case variant `Event_id` into it and hashed it (the hash matches: it is returned not redacted, so `hc1`
-    fails), and a copy of it with only redactable content altered (hash mismatch).  The two have the SAME
-    redaction, yet get DIFFERENT event IDs: the intact event's reference hash covers the re-emitted `event_id`,
-    the re-parsed redacted copy's does not.  Replayed on the Go code (room version 10, real SHA-256):
-    `$si3leqN6sEe5uZjub5Omi8dQwFNHlF8rnB0tETZ34wI` vs `$3zoncHWlgVBMjowEQsafT_q1-qgCFhrIfJOdLmHvsJ4`.
-    Such an event is not one `EventBuilder.Build` produces; the root is that the redaction keep struct matches
-    keys case-insensitively (C05's stated domain restriction). -/
+/-- **The pair that was the counter-example before the repair** (`corpus/C04/event.ops`).  An event whose SENDER
+    put a case variant `Event_id` into it and hashed it (the hash matches: it is returned not redacted), and a copy
+    of it with only redactable content altered (hash mismatch, returned redacted).  They have the same redaction
+    and — now — the SAME event ID: the redaction drops `Event_id` instead of re-emitting it as `event_id`, so the
+    intact event's reference hash no longer covers a member that the re-parsed redacted copy lacks.  On the unrepaired
+    code (room version 10, real SHA-256) the two IDs were `$si3leqN6sEe5uZjub5Omi8dQwFNHlF8rnB0tETZ34wI` and
+    `$3zoncHWlgVBMjowEQsafT_q1-qgCFhrIfJOdLmHvsJ4`. -/
 example : (match parseUntrusted H1 b!"10" (exEv true "x" "lw"), parseUntrusted H1 b!"10" (exEv true "yy" "lw") with
-  | .ok a, .ok b => !a.redacted && b.redacted && a.f.eventIDRaw != b.f.eventIDRaw
+  | .ok a, .ok b => !a.redacted && b.redacted && a.f.eventIDRaw == b.f.eventIDRaw && !a.f.eventIDRaw.isEmpty
   | _, _ => false) = true := by decide +kernel
 
 example : (match exRedaction (exEv true "x" "lw"), exRedaction (exEv true "yy" "lw") with
-  | some (r1, _), some (r2, _) => r1 == r2
+  | some r1, some r2 => r1 == r2
   | _, _ => false) = true := by decide +kernel
 
 end V.C04
